@@ -238,7 +238,7 @@ def job(u, sentinel=False, soft_inserts=False, drop_inserts=None, repo=None):
         j = {'path': it['path']}
         if sent:
             j['as'] = '__sentinel_' + it['path'].split('::')[-1]
-        for k in (() if sent else ('as',)) + ('ret', 'impl_mode', 'for_to_loop', 'for_into_iter', 'impl_trait', 'bool_or_assign', 'expect_loops', 'expect_closures', 'keep_fields', 'derives', 'pre_attrs'):
+        for k in (() if sent else ('as',)) + ('ret', 'impl_mode', 'for_to_loop', 'for_into_iter', 'impl_trait', 'bool_or_assign', 'sync_async', 'expect_loops', 'expect_closures', 'keep_fields', 'derives', 'pre_attrs'):
             if k in it:
                 j[k] = it[k]
         if it.get('assumed') and _has_fn_contract(it):
